@@ -38,6 +38,7 @@ APHeaderOk(p, m) ==
   /\ HTid(h) = MinOf([i \in 1..Len(us) |-> HTid(U16(us[i], 1))])
 PayloadReason(e) ==
   IF e.res # "ok" THEN "payload_panic"
+  ELSE IF ~e.stream_intact THEN "wrote_into_callers_stream_buffer"     \* the access units lie in one caller buffer
   ELSE IF \E j \in 1..Len(e.frags) : Len(e.frags[j]) > e.mtu THEN "fragment_exceeds_mtu"
   ELSE IF \E j \in 1..Len(e.parsed) : e.parsed[j].res # "ok" THEN "own_output_rejected"
   ELSE LET rs == [j \in 1..Len(e.frags) |-> RefParse(e.frags[j], e.donl)] IN
